@@ -2318,4 +2318,13 @@ REVERT("revert-zero-sized-arithmetic", "C05", "fire S15", "37a902e", "pre-fix tr
 M("s15-quiet-checked-sub", "C05", "quiet", "src/compile.rs",
   """    let mut joined = Vec::with_capacity((num_elems_a + num_elems_b).saturating_sub(1));""",
   """    let mut joined = Vec::with_capacity((num_elems_a + num_elems_b).checked_sub(1).unwrap_or(0));""", "behaviour-preserving: checked_sub instead of saturating_sub")
+REVERT("revert-const-definition-types", "C17", "fire T17", "a70bb8d", "pre-fix tree: const types registered unresolved; external values registered with the last type seen")
+M("t17-external-type-conflict-ignored", "C17", "fire T17", "src/check.rs",
+  """                                Some((ty, _)) if ty != &const_def.ty => {
+                                    let e =
+                                        TypeErrorEnum::TypeMismatch(ty.clone(), const_def.ty.clone());
+                                    errors.extend(vec![Some(TypeError::new(e, meta))]);
+                                }
+                                _ => {""",
+  """                                _ => {""", "a second declared type for the same external value silently replaces the first")
 
